@@ -89,6 +89,12 @@ func c12Histories(r *rng, tier string, each func(ops []string, label string)) {
 		}
 		each(ops, "random/len4-12")
 	}
+	// registrations from a backend whose reflection stream ends with an error status after everything was answered
+	for _, a := range c11Alphabet {
+		each([]string{a, "R0.2~", "D0"}, "flaky-reflection-end")
+		each([]string{a, "R2.4~", a}, "flaky-reflection-end")
+		each([]string{"R1.1~", a, "D1"}, "flaky-reflection-end")
+	}
 }
 
 func c12Gen(o *out, r *rng, tier string) {
